@@ -466,6 +466,71 @@ func c01RestoresMark(p *Prog, g *ssa.Function, m c01Mark) (ssa.Instruction, stri
 		}
 		return false
 	}
+	// g returns the mark it found (`outer := p.begin(); defer p.end(outer)`): every caller hands that value to a
+	// function that raises the mark to its parameter, deferred or called
+	returnsMark := len(returnsOf(g)) > 0
+	for _, ret := range returnsOf(g) {
+		found := false
+		for _, rv := range ret.Results {
+			if fa, nn, ok := c01FieldLoad(rv); ok && nn.Obj().Name() == m.T && fa.Field == m.idx {
+				found = true
+			}
+		}
+		if !found {
+			returnsMark = false
+		}
+	}
+	if returnsMark {
+		callers, all := 0, true
+		var where ssa.Instruction
+		if node := p.CG.Nodes[g]; node != nil {
+			for _, e := range node.In {
+				if e.Site == nil || e.Site.Value() == nil {
+					continue
+				}
+				callers++
+				v := e.Site.Value()
+				used := false
+				var visit func(v ssa.Value, d int)
+				visit = func(v ssa.Value, d int) {
+					if v.Referrers() == nil || d > 3 {
+						return
+					}
+					for _, ref := range *v.Referrers() {
+						var cc *ssa.CallCommon
+						switch x := ref.(type) {
+						case *ssa.Defer:
+							cc = &x.Call
+						case *ssa.Call:
+							cc = x.Common()
+						case *ssa.Extract:
+							visit(x, d+1)
+						}
+						if cc == nil || cc.StaticCallee() == nil {
+							continue
+						}
+						if i := c01MaxesMarkFromParam(p, cc.StaticCallee(), m); i >= 0 {
+							args := cc.Args
+							if i < len(args) && args[i] == v {
+								used = true
+								where = ref
+							}
+						}
+					}
+				}
+				visit(v, 0)
+				if !used {
+					all = false
+				}
+			}
+		}
+		if callers > 0 && all {
+			return where, "by the function each of the " + itoa(int64(callers)) + " callers of " + p.FuncName(g) + " hands the returned mark to (deferred or called)"
+		}
+		if callers > 0 && where != nil {
+			return where, "!"
+		}
+	}
 	for _, f := range fnsOf(g) {
 		for _, b := range f.Blocks {
 			for _, in := range b.Instrs {
@@ -541,7 +606,30 @@ func c01RestoresMark(p *Prog, g *ssa.Function, m c01Mark) (ssa.Instruction, stri
 										used = true
 									}
 								case *ssa.Call:
+									// called on every path from here to every exit of the caller
 									if x.Common().Value == ssa.Value(v) {
+										site := e.Site.(ssa.Instruction)
+										isEnd := func(in ssa.Instruction) bool {
+											cc, ok := in.(*ssa.Call)
+											return ok && cc.Common().Value == ssa.Value(v)
+										}
+										allExits := true
+										for _, ret := range returnsOf(site.Parent()) {
+											if !ReachableBlocks(site.Block())[ret.Block()] && ret.Block() != site.Block() {
+												continue
+											}
+											if !MustPassFrom(site.Block(), instrIndex(site)+1, ret, isEnd) {
+												allExits = false
+											}
+										}
+										if allExits {
+											used = true
+										}
+									}
+								case *ssa.Store:
+									// kept in a local that a deferred closure of the caller calls
+									// (`end := p.chain(); defer func() { end(); … }()`)
+									if cell, isCell := x.Addr.(*ssa.Alloc); isCell && x.Val == ssa.Value(v) && c01CalledByDeferredClosure(cell) {
 										used = true
 									}
 								}
@@ -563,4 +651,114 @@ func c01RestoresMark(p *Prog, g *ssa.Function, m c01Mark) (ssa.Instruction, stri
 		}
 	}
 	return nil, ""
+}
+
+// c01RaisesOnly: the store st (in block b) into mark m stands on the edge of a comparison `val > mark` (or
+// `mark < val`) of the stored value with the mark: it can only raise the mark.
+func c01RaisesOnly(b *ssa.BasicBlock, st *ssa.Store, m c01Mark) bool {
+	isMark := func(v ssa.Value) bool {
+		fa, nn, ok := c01FieldLoad(v)
+		return ok && nn.Obj().Name() == m.T && fa.Field == m.idx
+	}
+	sameVal := func(v ssa.Value) bool {
+		if v == st.Val {
+			return true
+		}
+		a, b := cellOf(v), cellOf(st.Val)
+		return a != "" && a == b
+	}
+	for _, pr := range b.Preds {
+		if len(pr.Instrs) == 0 || len(pr.Succs) != 2 {
+			continue
+		}
+		iff, ok := pr.Instrs[len(pr.Instrs)-1].(*ssa.If)
+		if !ok {
+			continue
+		}
+		c, pol := normCond(iff.Cond, true)
+		bo, ok := c.(*ssa.BinOp)
+		if !ok {
+			continue
+		}
+		onTrue := pr.Succs[0] == b
+		if !pol {
+			onTrue = !onTrue
+		}
+		switch {
+		case (bo.Op == token.GTR || bo.Op == token.GEQ) && sameVal(bo.X) && isMark(bo.Y) && onTrue:
+			return true
+		case (bo.Op == token.LSS || bo.Op == token.LEQ) && isMark(bo.X) && sameVal(bo.Y) && onTrue:
+			return true
+		case (bo.Op == token.LEQ || bo.Op == token.LSS) && sameVal(bo.X) && isMark(bo.Y) && !onTrue:
+			return true
+		case (bo.Op == token.GEQ || bo.Op == token.GTR) && isMark(bo.X) && sameVal(bo.Y) && !onTrue:
+			return true
+		}
+	}
+	return false
+}
+
+// c01MaxesMarkFromParam: h raises mark m to one of its parameters (`if saved > p.mark { p.mark = saved }`): its index.
+func c01MaxesMarkFromParam(p *Prog, h *ssa.Function, m c01Mark) int {
+	if h == nil || h.Blocks == nil || !p.InPkg(h) {
+		return -1
+	}
+	for _, b := range h.Blocks {
+		for _, in := range b.Instrs {
+			st, ok := in.(*ssa.Store)
+			if !ok {
+				continue
+			}
+			fa, ok := st.Addr.(*ssa.FieldAddr)
+			if !ok || c01MarkOf(p, fa) == nil || c01MarkOf(p, fa).name != m.name {
+				continue
+			}
+			pa, ok := unspillParam(st.Val).(*ssa.Parameter)
+			if !ok {
+				pa, ok = st.Val.(*ssa.Parameter)
+			}
+			if !ok || !c01RaisesOnly(b, st, m) {
+				continue
+			}
+			for i, hp := range h.Params {
+				if hp == pa {
+					return i
+				}
+			}
+		}
+	}
+	return -1
+}
+
+// c01CalledByDeferredClosure: the function value kept in cell is called (entry block) by a closure that the cell's
+// function defers.
+func c01CalledByDeferredClosure(cell *ssa.Alloc) bool {
+	f := cell.Parent()
+	for _, b := range f.Blocks {
+		for _, in := range b.Instrs {
+			d, ok := in.(*ssa.Defer)
+			if !ok {
+				continue
+			}
+			mc, ok := d.Call.Value.(*ssa.MakeClosure)
+			if !ok {
+				continue
+			}
+			cf := mc.Fn.(*ssa.Function)
+			for i, bind := range mc.Bindings {
+				if bind != ssa.Value(cell) || i >= len(cf.FreeVars) {
+					continue
+				}
+				fv := cf.FreeVars[i]
+				for _, ci := range cf.Blocks[0].Instrs {
+					if c, ok := ci.(*ssa.Call); ok {
+						if u, ok := c.Common().Value.(*ssa.UnOp); ok && u.X == ssa.Value(fv) {
+							return true
+						}
+					}
+				}
+			}
+		}
+	}
+	return false
 }
